@@ -99,7 +99,10 @@ def cases(draw, tier, wide=False):
             zsmall.append([[int(q), c] for q, c in zip(qs, [2, 3, 5])])
     # positions (operation, parameter) written as free symbols when the circuit is simulated symbolically and bound afterwards
     slots = [(i, j) for i, o in enumerate(ops) if o["g"] in cgen.TABLE and o["g"] != "U3" for j in range(len(o["p"]))]
-    symbolised = draw(st.lists(st.sampled_from(slots), unique=True, max_size=3)) if (slots and not wide and n <= 4 and draw(st.booleans())) else []
+    symbolised = draw(st.lists(st.sampled_from(slots), unique=True, max_size=3)) if (slots and not wide and n <= 4 and draw(st.integers(0, 2)) > 0) else []
+    multi = [x for x in slots if len(ops[x[0]]["q"]) >= 2]
+    if symbolised and multi and not any(x in multi for x in symbolised):
+        symbolised = [draw(st.sampled_from(multi))] + list(symbolised)[:2]  # a symbolic multi-qubit gate whenever there is one
     return {
         "symbolised": [list(x) for x in symbolised],
         "zsmall": zsmall, "det_final": det,
@@ -251,7 +254,7 @@ def oracle(spec):
 
 
 SUBCHECKS = [
-    SubCheck("views_agree", oracle, strategy=cases, examples=(170, 1200), shards=(6, 16), fork_timeout=30,
+    SubCheck("views_agree", oracle, strategy=cases, examples=(200, 1200), shards=(6, 16), fork_timeout=30,
              rule=RULE),
     SubCheck("wide_register", oracle, strategy=lambda t: cases(t, wide=True), examples=(11, 100), shards=(8, 16), fork_timeout=120,
              rule="the same oracle on registers of 6..10 (11 thorough) qubits (at most 4 non-deterministic qubits, operators on any of the qubits, state-vector reference): numbering agrees on wide registers too"),
